@@ -4,5 +4,5 @@ set -e
 cd "$(dirname "$0")"
 export PYTHONPATH="$PWD"
 /venv/bin/python -m harness.gen_tables > /dev/null
-/venv/bin/python -c "from harness import gen_tables; gen_tables.regenerate()"
+/venv/bin/python -c "from harness import gen_tables, gen_skeleton; gen_tables.regenerate(); gen_skeleton.regenerate()"
 cd lean && lake build
